@@ -840,6 +840,9 @@ pub fn drive_dec(spec: &DecSpec, mode: DecMode, source: &mut dyn OpSource, mut p
                     run.faults.backpressure += 1;
                 }
                 // transcript and signature
+                if log_calls() {
+                    log_call(format!("src={} cap={} kind={} last={} -> {} read={} written={} had_errors={} out={:02x?}{:04x?}", crate::props::hex(pending), c.cap_used, offer.kind, last, c.res.name(), c.read, c.written, c.had_errors, c.out8, c.out16));
+                }
                 let t = &mut run.transcript;
                 t.usize(pending.len());
                 t.usize(cap);
